@@ -263,6 +263,23 @@ theorem denseAt_cons (dflt : ν) (d : Nat) (f : Tree κ ν (d + 1)) (c : κ) (p 
       | none => dflt := by
   rw [denseAt]; rfl
 
+/-- the dense value below an optional payload (named, so that no anonymous matcher is involved) -/
+def optDense (dflt : ν) (d : Nat) (o : Option (Tree κ ν d)) (q : List κ) : ν :=
+  match o with
+  | some t => denseAt dflt d t q
+  | none => dflt
+
+theorem optDense_some (dflt : ν) (d : Nat) (t : Tree κ ν d) (q : List κ) :
+    optDense dflt d (some t) q = denseAt dflt d t q := rfl
+
+theorem optDense_none (dflt : ν) (d : Nat) (q : List κ) :
+    optDense (κ := κ) dflt d none q = dflt := rfl
+
+theorem denseAt_cons' (dflt : ν) (d : Nat) (f : Tree κ ν (d + 1)) (c : κ) (p : List κ) :
+    denseAt dflt (d + 1) f (c :: p) =
+      optDense dflt d (lookup (show List (κ × Tree κ ν d) from f) c) p := by
+  rw [denseAt_cons]; rfl
+
 theorem denseAt_dfltTree (dflt : ν) (d : Nat) (p : List κ) :
     denseAt dflt d (dfltTree (κ := κ) dflt d) p = dflt := by
   cases d with
